@@ -166,15 +166,19 @@ OVERRIDES = {
    note=("Trusted: codec externals and pair axioms, stream model (tell/seek), read_data contract (verified under C03). "
          "reader_schema None; schemas without logical types."),
    technique="contract-based deductive verification of the container iterators against a layout specification (ghost file derivations, loop ghosts); bounded differential check with an independent layout parser / writer"),
- "C06": dict(cat="other", design="0.3, 0.9, 7/C06",
+ "C06": dict(cat="other", design="0.3, 0.9, 0.15, 7/C06",
    text=("Deductive: for every BinaryDecoder method, (a) on valid input exactly the encoding is consumed, (b) with no assumption "
-         "on the input a read that comes back short makes the method raise (eof_hit unchanged on every normal return); skip_sync "
-         "consumes the 16-byte marker or raises ValueError for ANY other 16 bytes, a truncated marker or end of file -- every "
-         "alteration of a block's trailing marker is reported when the block is reached. The prefix conclusion for whole files "
-         "(paper lemma L-prefix-file) is exercised by the bounded stand-in: every cut offset, values larger than 64 KiB, every "
-         "sync-marker byte."),
-   note="Trusted: stream model; the container iterators are verified for layout-valid input (C05), their behaviour on truncated input only bounded.",
-   technique="contract-based deductive verification of the decoder's short-read behaviour and the sync check; bounded truncation / corruption enumeration"),
+         "on the input a read that comes back short makes the method raise (eof_hit unchanged on every normal return), and read_long "
+         "raises EOFError exactly when there is nothing at all to read -- the one signal the container iterators take as the regular "
+         "end of the file. Behaviour 'short' (no assumption about the remaining bytes) of every reader read_* / read_data (generated "
+         "contracts), of the four codec block readers, of Block.__iter__ and of _iter_avro_records / _iter_avro_blocks: a call that "
+         "returns has not had a read come back short; the iterators end normally only with the input exhausted exactly where a block "
+         "would start, every other end-of-input or mismatch propagates. skip_sync consumes the 16-byte marker or raises ValueError for "
+         "ANY other 16 bytes, a truncated marker or end of file. Not deductive: that the records yielded from a cut file are a prefix "
+         "of what was written (paper lemma L-prefix-file), the header, schemaless_reader -- bounded stand-in: every cut offset, values "
+         "larger than 64 KiB, multi-byte block counts, every sync-marker byte; hence 'other'."),
+   note="Trusted: stream model (eof_hit = some read returned fewer bytes than asked for); codecs' decompressors as may-raise externals.",
+   technique="contract-based deductive verification of the short-read behaviour of decoder, readers, block readers and container iterators, and of the sync check; bounded truncation / corruption enumeration"),
  "C07": dict(cat="other", design="0.3, 7/C07",
    text=("Deductive: Writer.dump / write / flush / write_block and the codec block writers under contract: every operation appends "
          "at the append position only (so the header is never touched), write_block first emits the pending block, and -- behaviour "
